@@ -25,8 +25,8 @@ type RR struct {
 }
 
 type Message struct {
-	ID, Flags                     uint16
-	Questions                     []Question
+	ID, Flags                      uint16
+	Questions                      []Question
 	Answers, Authority, Additional []RR
 }
 
@@ -48,8 +48,23 @@ type Encoder struct {
 	// Choice is asked once per name: it receives the number of usable
 	// (suffixIndex, occurrence) candidates and returns -1 for no pointer or an
 	// index into the candidate list.
-	Choice   func(candidates int) int
-	Pointers int
+	Choice func(candidates int) int
+	// Root also offers the empty suffix as a pointer target: every earlier root
+	// terminator (the zero octet that ends a written-out name) is a prior
+	// occurrence of the root name, RFC 1035 4.1.4 allows a name to end in a
+	// pointer to it. Off by default.
+	Root   bool
+	viaPtr map[int]bool // label offsets of names that end in a pointer
+	Stats
+}
+
+// Stats describes the pointers an encoding contains.
+type Stats struct {
+	Pointers     int // pointers emitted
+	RootPointers int // of which point at a root terminator (empty suffix)
+	RootAfter    int // of which are preceded by at least one label of the same name
+	MaxTarget    int // largest pointer target (0: none)
+	Chained      int // pointers whose target name itself ends in a pointer
 }
 
 func key(n Name) string {
@@ -64,9 +79,20 @@ func key(n Name) string {
 func (e *Encoder) name(n Name) {
 	type cand struct{ from, off int }
 	var cands []cand
+	// keys[i] = key(n[i:]); keys[len(n)] = "" (the empty suffix)
+	full := key(n)
+	keys := make([]string, len(n)+1)
+	for i, at := 0, 0; i < len(n); i++ {
+		keys[i] = full[at:]
+		at += 1 + len(n[i])
+	}
 	if e.Choice != nil {
-		for i := 0; i < len(n); i++ {
-			for _, off := range e.seen[key(n[i:])] {
+		last := len(n) - 1
+		if e.Root {
+			last = len(n) // the empty suffix: key "" = offsets of root terminators
+		}
+		for i := 0; i <= last; i++ {
+			for _, off := range e.seen[keys[i]] {
 				if off < 0x4000 {
 					cands = append(cands, cand{i, off})
 				}
@@ -83,16 +109,35 @@ func (e *Encoder) name(n Name) {
 	}
 	for i := 0; i < upto; i++ {
 		if len(e.buf) < 0x4000 {
-			e.seen[key(n[i:])] = append(e.seen[key(n[i:])], len(e.buf))
+			e.seen[keys[i]] = append(e.seen[keys[i]], len(e.buf))
+			if pick >= 0 {
+				e.viaPtr[len(e.buf)] = true
+			}
 		}
 		e.buf = append(e.buf, byte(len(n[i])))
 		e.buf = append(e.buf, n[i]...)
 	}
-	if pick >= 0 {
-		e.buf = append(e.buf, 0xC0|byte(cands[pick].off>>8), byte(cands[pick].off))
-		e.Pointers++
-	} else {
+	if pick < 0 {
+		if len(e.buf) < 0x4000 {
+			e.seen[""] = append(e.seen[""], len(e.buf))
+		}
 		e.buf = append(e.buf, 0)
+		return
+	}
+	off := cands[pick].off
+	e.buf = append(e.buf, 0xC0|byte(off>>8), byte(off))
+	e.Pointers++
+	if cands[pick].from == len(n) {
+		e.RootPointers++
+		if upto > 0 {
+			e.RootAfter++
+		}
+	}
+	if off > e.MaxTarget {
+		e.MaxTarget = off
+	}
+	if e.viaPtr[off] {
+		e.Chained++
 	}
 }
 
@@ -110,7 +155,14 @@ func (e *Encoder) rr(r RR) {
 
 // Encode emits the message; choice may be nil (no compression).
 func Encode(m *Message, choice func(int) int) (wire []byte, pointers int) {
-	e := &Encoder{seen: map[string][]int{}, Choice: choice}
+	w, st := EncodeOpt(m, choice, false)
+	return w, st.Pointers
+}
+
+// EncodeOpt is Encode with the choice of also offering pointers to the root
+// name (see Encoder.Root); it reports what the encoding contains.
+func EncodeOpt(m *Message, choice func(int) int, root bool) ([]byte, Stats) {
+	e := &Encoder{seen: map[string][]int{}, viaPtr: map[int]bool{}, Choice: choice, Root: root}
 	e.u16(m.ID)
 	e.u16(m.Flags)
 	e.u16(uint16(len(m.Questions)))
@@ -131,7 +183,7 @@ func Encode(m *Message, choice func(int) int) (wire []byte, pointers int) {
 	for _, r := range m.Additional {
 		e.rr(r)
 	}
-	return e.buf, e.Pointers
+	return e.buf, e.Stats
 }
 
 var ErrTruncated = errors.New("dns: truncated")
